@@ -208,7 +208,10 @@ def r18_c(ctx):
                             problems.append((ev[1], '%s(%s) after the list was written: the value may be the new element, '
                                              'which the shadow does not hold yet (ValueError)' % (what, norm(arg) if arg is not None else '')))
                     elif what == 'shadow.pop':
-                        ok = arg is None or (isinstance(arg, ast.Name) and arg.id in known)
+                        ok = arg is None or (isinstance(arg, ast.Name) and arg.id in known) or (
+                            isinstance(arg, ast.Call) and isinstance(arg.func, ast.Attribute) and arg.func.attr == 'index'
+                            and norm(arg.func.value) == 'self.%s' % shadow and len(arg.args) == 1
+                            and isinstance(arg.args[0], ast.Name) and arg.args[0].id in known)
                         if not ok:
                             problems.append((ev[1], 'shadow.pop with an unproved index after the list was written'))
                     elif what == 'subscript':
@@ -395,4 +398,66 @@ def r18_f(ctx):
                             'two groups of identical text the first one is affected instead of the one at the index'
                             % (op, 'it goes through %s' % norm(by_eq[0])[:40] if by_eq else 'no list.%s on the index' % op),
                             line=fd.node.lineno))
+    return rr
+
+
+def r18_h(ctx):
+    """extend / the constructor walk their argument once; equality of groups is equality of their text"""
+    repo = ctx.repo
+    cls = _cls(ctx)
+    rr = RuleResult('R18.h', 'extend and the constructor iterate their argument exactly once (a generator or iterator is '
+                    'exhausted by a first pass), and argument groups are found by comparing serialisations: a string '
+                    'coerced to a group equals the parsed group with the same text', floor=3)
+    for op in ('extend', '__init__'):
+        fds = cls.methods.get(op)
+        if not fds:
+            continue
+        fd = fds[-1]
+        ps = fd.params()
+        if len(ps) < 2:
+            continue
+        p = ps[1]
+        # materialised first?  p = list(p) / tuple(p)
+        mat = any(isinstance(n, ast.Assign) and len(n.targets) == 1 and norm(n.targets[0]) == p and isinstance(n.value, ast.Call)
+                  and norm(n.value.func) in ('list', 'tuple') and len(n.value.args) == 1 and norm(n.value.args[0]) == p
+                  for n in ast.walk(fd.node))
+        uses = []
+        for n in ast.walk(fd.node):
+            if isinstance(n, ast.For) and norm(n.iter) == p:
+                uses.append(n)
+            elif isinstance(n, ast.comprehension) and norm(n.iter) == p:
+                uses.append(n)
+            elif isinstance(n, ast.Call) and any(isinstance(a, ast.Name) and a.id == p for a in n.args) and not (
+                    isinstance(n.func, ast.Name) and n.func.id in ('isinstance', 'len', 'type', 'id', 'bool')):
+                uses.append(n)
+        ok = len(uses) <= 1 or mat
+        rr.ob(ok, {'operation': op, 'passes_over_the_argument': len(uses), 'materialised_first': mat})
+        if not ok:
+            rr.fail(Finding('R18.h', 'data', fd.qual, uses[1] if not isinstance(uses[1], ast.comprehension) else fd.node.name,
+                            'TexArgs.%s walks its argument %d times: with a generator, map or iterator the first pass '
+                            'consumes it and the later pass sees nothing, so extend(iter([...])) silently adds no group '
+                            '(a list does)' % (op, len(uses)), line=fd.node.lineno))
+    # equality of expressions = equality of text
+    texexpr = repo.need_cls('data.TexExpr')
+    eqs = texexpr.methods.get('__eq__')
+    if not eqs:
+        raise AnalysisError('TexExpr.__eq__ vanished')
+    fd = eqs[-1]
+    other = fd.params()[1]
+
+    def is_text_eq(e):
+        if not (isinstance(e, ast.Compare) and len(e.ops) == 1 and isinstance(e.ops[0], ast.Eq)):
+            return False
+        sides = {norm(e.left), norm(e.comparators[0])}
+        return sides in ({'str(self)', 'str(%s)' % other}, {'self.__str__()', '%s.__str__()' % other})
+    rets = [n for n in ast.walk(fd.node) if isinstance(n, ast.Return)]
+    bad = [r for r in rets if r.value is not None and not is_text_eq(r.value) and not (
+        isinstance(r.value, ast.Constant) and r.value.value in (False, NotImplemented)) and norm(r.value) != 'NotImplemented']
+    ok = any(is_text_eq(r.value) for r in rets if r.value is not None) and not bad
+    rr.ob(ok, {'expression_equality': [norm(r.value)[:50] for r in rets if r.value is not None]})
+    if not ok:
+        rr.fail(Finding('R18.h', 'data', fd.qual, bad[0] if bad else fd.node.name, 'TexExpr.__eq__ does not compare the '
+                        'serialisations of the two expressions on every path: a string coerced to a group (e.g. remove(\'{}\')'
+                        ', remove(\'{a[1]}\')) no longer equals the parsed group with the same text, so it is not found',
+                        line=fd.node.lineno))
     return rr
